@@ -89,6 +89,9 @@ func c16Gen(r *obs.Run) []c16pair {
 			case 3: // duplicate interval
 				return c16iv{o.Loc, o.S, o.E}
 			case 4: // chained overlap
+				if o.E == o.S { // an empty one: nothing to overlap, abut it instead
+					return c16iv{o.Loc, o.E, o.E + 1 + rng.Intn(8)}
+				}
 				s := o.E - 1 - rng.Intn(minInt(3, o.E-o.S))
 				return c16iv{o.Loc, s, s + 2 + rng.Intn(10)}
 			default: // one short of abutting (gap of 1)
@@ -96,6 +99,9 @@ func c16Gen(r *obs.Run) []c16pair {
 			}
 		}
 		s := rng.Intn(span)
+		if rng.Intn(15) == 0 { // an empty feature: it abuts whatever its position touches
+			return c16iv{loc, s, s}
+		}
 		if big && rng.Intn(6) == 0 {
 			return c16iv{loc, s, s + 1 + rng.Intn(span)}
 		}
